@@ -165,7 +165,7 @@ class Check(PropertyCheck):
             "process_deferred, reset, save→load with adversarial strings. distinct = distinct history; non-trivial = "
             "at least one update-family operation reached the type check.")
     budget = {"quick": 4000, "thorough": 120000}
-    time_budget = {"quick": 40, "thorough": 600}
+    time_budget = {"quick": 30, "thorough": 600}
     fingerprints = ["mitmproxy.optmanager:OptManager.update_known", "mitmproxy.optmanager:OptManager.rollback",
                     "mitmproxy.optmanager:OptManager.update", "mitmproxy.optmanager:OptManager.update_defer",
                     "mitmproxy.optmanager:OptManager.add_option", "mitmproxy.optmanager:OptManager.subscribe",
@@ -177,7 +177,7 @@ class Check(PropertyCheck):
                     "mitmproxy.utils.typecheck:check_option_type", "mitmproxy.utils.signals:_SignalMixin.notify"]
     trusted_base = ["ruamel.yaml dump/load as the parameter of config_roundtrip_nondefault (law checked by the oracle on every save case)",
                     "Python int() on set-spec strings outside [+-]?[0-9]+ (not generated)"]
-    parallel = True
+    parallel = False
 
     # ---------------------------------------------------------------- generator
     def _val(self, rng, ty, ok=True):
